@@ -209,6 +209,7 @@ type pathExec struct {
 	shaConcreteOverflow bool
 	inBlocked int
 	randDraws [][]*term // draws of the random source so far (distinctness assumption)
+	seedDraws [][]*term // seeds generated so far (distinctness assumption)
 	// innermost function of the panic most recently caught by verifrt.Catch
 	lastPanicSite string
 	// cooperative goroutines (verifrt.Goroutines)
